@@ -246,6 +246,26 @@ theorem autoaccept_direct {s s' : State} {f t : Addr} {c rel : Coins} (inv : Sto
   · rw [ho]; simp [Op.xfers, expQuarantined, hq]
   · rw [hr]; simp [Op.xfers, expRecord, hq]
 
+/-- **The context bypass delivers directly** (`quarantine.WithBypass`, used by the exchange
+module for settlements and accepted payments): the receiver is credited in full whether or not
+it opted in, and the quarantine store is untouched. -/
+theorem bypass_direct {s s' : State} {f t : Addr} {c rel : Coins}
+    (h : exec s (.bsend f t c) = .ok (s', rel)) :
+    (∀ a d, Ledger.bal s'.bank a d = Ledger.bal s.bank a d
+        - (if f = a then Coins.amountOf c d else 0) + (if t = a then Coins.amountOf c d else 0)) ∧
+    s'.recs = s.recs ∧ s'.index = s.index := by
+  simp only [exec, bypassSend] at h
+  cases hv : coinsValid c
+  · simp [hv, Except.map] at h
+  · simp only [hv, Bool.not_true, Bool.false_eq_true, if_false] at h
+    cases hb : bankTransfers s true [⟨f, t, c⟩] with
+    | error e => simp [hb, Except.map] at h
+    | ok s1 =>
+      simp only [hb, Except.map, Except.ok.injEq, Prod.mk.injEq] at h
+      obtain ⟨rfl, _⟩ := h
+      obtain ⟨rfl, _, _⟩ := bankTransfers_bypass_ok hb
+      exact ⟨fun a d => Ledger.bal_move _ _ _ _ _ _, rfl, rfl⟩
+
 /-! ### 4. declining, opting in or out, changing auto-responses -/
 
 /-- **Decline / opt-in / opt-out / auto-response updates never move or lose funds**: every
@@ -284,6 +304,7 @@ theorem settings_and_decline_move_nothing {s s' : State} {op : Op} {rel : Coins}
   | send f t c => simp [Op.movesNoFunds] at hop
   | msend f outs => simp [Op.movesNoFunds] at hop
   | iosend ins t => simp [Op.movesNoFunds] at hop
+  | bsend f t c => simp [Op.movesNoFunds] at hop
   | accept to froms perm => simp [Op.movesNoFunds] at hop
   | qadd to froms amt payer => simp [Op.movesNoFunds] at hop
 
